@@ -1,4 +1,5 @@
 //! nbverif: pure executor. Reads cases on stdin, writes one observation line per case.
+mod fmt;
 mod list;
 
 fn main() {
@@ -11,6 +12,7 @@ fn main() {
     std::panic::set_hook(Box::new(|_| {}));
     match args[1].as_str() {
         "list" => list::main(),
+        "fmt" => fmt::main(),
         other => {
             eprintln!("unknown subcommand {other}");
             std::process::exit(2);
